@@ -11,7 +11,7 @@ property; the counter-examples are the inputs the search harness found.
 namespace CM.Prec
 open E
 
-theorem level_le_nine (e : E) : e.level ≤ 9 := by
+theorem level_le_ten (e : E) : e.level ≤ 10 := by
   unfold level; split
   · exact Nat.le_refl _
   · cases e <;> simp [opLevel] <;> (try split) <;> omega
@@ -39,20 +39,21 @@ theorem WP_of_level {m k : Nat} : ∀ e, WP k e = true → m ≤ e.level → WP 
 theorem level_bin (k : BK) (l r l' r' : E) (p : Bool) : (bin k l r p).level = (bin k l' r' p).level := by
   cases k <;> rfl
 
-theorem level_setPar_true (e : E) : (e.setPar true).level = 9 := by
+theorem level_setPar_true (e : E) : (e.setPar true).level = 10 := by
   cases e <;> simp [setPar, level, par]
 
-theorem level_of_par {e : E} (h : e.par = true) : e.level = 9 := by simp [level, h]
+theorem level_of_par {e : E} (h : e.par = true) : e.level = 10 := by simp [level, h]
 
 /-- adding parentheses makes a tree fit every slot -/
-theorem WP_setPar_true {m k : Nat} (hm : m ≤ 9) : ∀ e, WP k e = true → WP m (e.setPar true) = true := by
+theorem WP_setPar_true {m k : Nat} (hm : m ≤ 10) : ∀ e, WP k e = true → WP m (e.setPar true) = true := by
   intro e
-  cases e <;> simp only [WP, setPar, Bool.and_eq_true, decide_eq_true_eq, level, par, if_true] <;> intro hw
+  cases e <;> simp only [WP, setPar, Bool.and_eq_true, decide_eq_true_eq, level, par, if_true, ↓reduceIte] <;> intro hw
   all_goals first
     | exact hm
     | exact ⟨hm, hw.2⟩
     | exact ⟨⟨hm, hw.1.2⟩, hw.2⟩
     | exact ⟨⟨⟨hm, hw.1.1.2⟩, hw.1.2⟩, hw.2⟩
+    | exact ⟨⟨hm, WP_mono (by split <;> omega) _ hw.1.2⟩, WP_mono (by split <;> omega) _ hw.2⟩
 
 theorem WP_le_level {m : Nat} : ∀ e, WP m e = true → m ≤ e.level := by
   intro e
@@ -65,19 +66,19 @@ theorem WP_le_level {m : Nat} : ∀ e, WP m e = true → m ≤ e.level := by
 
 /-! ## combine-calls -/
 
-theorem WP_call (m : Nat) (r : String) (ps : List String) (hm : m ≤ 9) : WP m (call r ps false) = true := by
+theorem WP_call (m : Nat) (r : String) (ps : List String) (hm : m ≤ 10) : WP m (call r ps false) = true := by
   simp [WP, level, par, opLevel, hm]
 
-theorem slotL_le (k : BK) : slotL k ≤ 9 := by cases k <;> simp [slotL]
-theorem slotR_le (k : BK) : slotR k ≤ 9 := by cases k <;> simp [slotR]
+theorem slotL_le (k : BK) : slotL k ≤ 10 := by cases k <;> simp [slotL]
+theorem slotR_le (k : BK) : slotR k ≤ 10 := by cases k <;> simp [slotR]
 
 /-- level of a boolean operation node without parentheses -/
-theorem level_bool (k : BK) (l r : E) (hk : isBoolOp k = true) : 2 ≤ (bin k l r false).level := by
+theorem level_bool (k : BK) (l r : E) (hk : isBoolOp k = true) : 3 ≤ (bin k l r false).level := by
   cases k <;> simp [isBoolOp] at hk <;> simp [level, par, opLevel]
 
 /-- **one node.** the rewritten node fits the slot of the node it replaces (fixed code) -/
 theorem combineStep_wp (m : Nat) (e : E) (h : WP m e = true) : WP m (combineStep true e) = true := by
-  have hm9 : m ≤ 9 := Nat.le_trans (WP_le_level e h) (level_le_nine e)
+  have hm9 : m ≤ 10 := Nat.le_trans (WP_le_level e h) (level_le_ten e)
   unfold combineStep
   split
   · rename_i l r p
@@ -154,6 +155,9 @@ theorem C08_combine_preserves_wp : ∀ (e : E) (m : Nat), WP m e = true → WP m
   | named n v p ih =>
     intro m h; simp only [combine, WP, Bool.and_eq_true, decide_eq_true_eq, level, par, opLevel] at *
     exact ⟨h.1, ih _ h.2⟩
+  | tup a b p iha ihb =>
+    intro m h; simp only [combine, WP, Bool.and_eq_true, decide_eq_true_eq, level, par, opLevel] at *
+    exact ⟨⟨h.1.1, iha _ h.1.2⟩, ihb _ h.2⟩
 
 /-- **the code before the fix.** `not (flag or s.startswith('a') or s.startswith('b'))`: the fold
 dropped the parentheses, the result `not flag or s.startswith(('a', 'b'))` is another expression. -/
@@ -166,8 +170,8 @@ theorem C08_combine_old_drops_parentheses :
 
 /-! ## invert-boolean-check -/
 
-theorem newComparison_wp (op : Cop) (l r : E) (hl : WP 6 l = true) (hr : WP 6 r = true) :
-    WP 4 (newComparison op l r) = true := by
+theorem newComparison_wp (op : Cop) (l r : E) (hl : WP 7 l = true) (hr : WP 7 r = true) :
+    WP 5 (newComparison op l r) = true := by
   unfold newComparison
   split
   · simp [WP, level, par, opLevel]; exact WP_mono (by omega) l hl
@@ -175,7 +179,7 @@ theorem newComparison_wp (op : Cop) (l r : E) (hl : WP 6 l = true) (hr : WP 6 r 
   · simp [WP, level, par, opLevel, hl, hr]
 
 theorem addPar_wp {m k : Nat} (pn : Bool) (e : E) (he : WP k e = true)
-    (hm : m ≤ if pn then 9 else k) : WP m (addPar pn e) = true := by
+    (hm : m ≤ if pn then 10 else k) : WP m (addPar pn e) = true := by
   unfold addPar
   cases pn
   · simp only [Bool.false_or]
@@ -230,6 +234,9 @@ theorem C08_invert_preserves_wp : ∀ (e : E) (m : Nat), WP m e = true → WP m 
   | named n v p ih =>
     intro m h; simp only [invert, WP, Bool.and_eq_true, decide_eq_true_eq, level, par, opLevel] at *
     exact ⟨h.1, ih _ h.2⟩
+  | tup a b p iha ihb =>
+    intro m h; simp only [invert, WP, Bool.and_eq_true, decide_eq_true_eq, level, par, opLevel] at *
+    exact ⟨⟨h.1.1, iha _ h.1.2⟩, ihb _ h.2⟩
 
 /-- **the code before the fix.** `(not a == b) + 1` became `a != b + 1`, `-(not a == b)` became `-a != b`. -/
 theorem C08_invert_old_drops_parentheses :
@@ -242,7 +249,7 @@ theorem C08_invert_old_drops_parentheses :
 
 /-! ## use-walrus-if -/
 
-theorem parenIfNeeded_wp {k m : Nat} (hm : m ≤ 9) (e : E) (h : WP k e = true) : WP m (parenIfNeeded e) = true := by
+theorem parenIfNeeded_wp {k m : Nat} (hm : m ≤ 10) (e : E) (h : WP k e = true) : WP m (parenIfNeeded e) = true := by
   unfold parenIfNeeded
   split
   · rename_i hc
@@ -253,39 +260,63 @@ theorem parenIfNeeded_wp {k m : Nat} (hm : m ≤ 9) (e : E) (h : WP k e = true) 
     · rw [level_of_par hc]; exact hm
   · exact WP_setPar_true hm e h
 
-/-- **C08/C01 (use-walrus-if keeps the parse).** for an assignment `n = value` (the right-hand side of
-an assignment is a slot of level 1) and each of the three test shapes — whose other operand is well
-parenthesised because it was parsed — the new test fits the `if` slot (level 0). -/
+theorem parenTuple_wp (v : E) (h : WPrhs v = true) : WP 2 (parenTuple v) = true := by
+  unfold parenTuple
+  split
+  · rename_i a b
+    simp only [WPrhs, Bool.and_eq_true] at h
+    simp only [WP, level, par, if_true, ↓reduceIte, Bool.and_eq_true, decide_eq_true_eq]
+    exact ⟨⟨by omega, WP_mono (by omega) a h.1⟩, WP_mono (by omega) b h.2⟩
+  · rename_i hne
+    unfold WPrhs at h
+    split at h
+    · rename_i a b; exact absurd rfl (hne a b)
+    · exact h
+
+/-- **C08/C01 (use-walrus-if keeps the parse).** for an assignment `n = value` (whatever may stand on
+the right of an assignment, `WPrhs`) and each of the three test shapes — whose other operand is well
+parenthesised because it was parsed — the new test fits the `if` slot (level 1: a bare `:=` may stand
+there, a bare tuple may not). -/
 theorem C08_walrus_preserves_wp (n : String) (value : E) (single : Bool) (t : Test)
-    (hv : WP 1 value = true)
-    (ht : match t with | .cmpName _ rhs _ => WP 6 rhs = true | _ => True) :
-    WP 0 (walrus true n value single t) = true := by
-  have hnamed : ∀ k, k ≤ 9 → WP k (named n value true) = true := by
-    intro k hk; simp [WP, level, par, hv, hk]
+    (hv : WPrhs value = true)
+    (ht : match t with | .cmpName _ rhs _ => WP 7 rhs = true | _ => True) :
+    WP 1 (walrus true n value single t) = true := by
+  have hv' := parenTuple_wp value hv
+  have hnamed : ∀ k, k ≤ 10 → WP k (named n (parenTuple value) true) = true := by
+    intro k hk; simp [WP, level, par, hv', hk]
   cases t with
   | name =>
     cases single
-    · simp [walrus, WP, level, par, opLevel, hv]
-    · simpa [walrus] using WP_mono (Nat.zero_le 1) value hv
+    · simp [walrus, WP, level, par, opLevel, hv']
+    · simpa [walrus] using WP_mono (by omega : 1 ≤ 2) _ hv'
   | notName p =>
-    simp only [walrus, if_true, WP, Bool.and_eq_true, decide_eq_true_eq, Nat.zero_le, true_and]
+    simp only [walrus, if_true, ↓reduceIte, WP, Bool.and_eq_true, decide_eq_true_eq]
+    refine ⟨by cases p <;> simp [level, par, opLevel], ?_⟩
     cases single
-    · exact parenIfNeeded_wp (by omega) _ (hnamed 4 (by omega))
-    · exact parenIfNeeded_wp (by omega) _ hv
+    · exact parenIfNeeded_wp (by omega) _ (hnamed 5 (by omega))
+    · exact parenIfNeeded_wp (by omega) _ hv'
   | cmpName op rhs p =>
-    simp only [walrus, if_true, WP, Bool.and_eq_true, decide_eq_true_eq, Nat.zero_le, true_and]
-    refine ⟨?_, ht⟩
+    simp only [walrus, if_true, ↓reduceIte, WP, Bool.and_eq_true, decide_eq_true_eq]
+    refine ⟨⟨by cases p <;> simp [level, par, opLevel], ?_⟩, ht⟩
     cases single
-    · exact parenIfNeeded_wp (by omega) _ (hnamed 6 (by omega))
-    · exact parenIfNeeded_wp (by omega) _ hv
+    · exact parenIfNeeded_wp (by omega) _ (hnamed 7 (by omega))
+    · exact parenIfNeeded_wp (by omega) _ hv'
 
 /-- **the code before the fix.** `val = a or b` / `if not val:` became `if not a or b:` -/
 theorem C08_walrus_old_loses_precedence :
     let v := bin .or (atom "a" false) (atom "b" false) false
-    WP 1 v = true ∧ WP 0 (walrus false "val" v true (.notName false)) = false ∧
+    WPrhs v = true ∧ WP 1 (walrus false "val" v true (.notName false)) = false ∧
     render (walrus false "val" v true (.notName false)) = "not a or b" ∧
     render (walrus true "val" v true (.notName false)) = "not (a or b)" ∧
     render (walrus true "val" v false (.notName false)) = "not (val := a or b)" := by
+  decide
+
+/-- **the code before the second fix.** `val = a, b` / `if val:` became `if a, b:` (not a Python file) -/
+theorem C01_walrus_old_bare_tuple :
+    let v := tup (atom "a" false) (atom "b" false) false
+    WPrhs v = true ∧ WP 1 (walrus false "val" v true .name) = false ∧
+    render (walrus false "val" v true .name) = "a, b" ∧ render (walrus true "val" v true .name) = "(a, b)" ∧
+    render (walrus true "val" v false (.cmpName .eq (atom "c" false) false)) = "(val := (a, b)) == c" := by
   decide
 
 -- non-vacuity: the hypotheses are met by trees on which the rewrites do something
